@@ -559,6 +559,24 @@ pub fn gen_dns_reply(src: &mut Src, env: &mut Env, proper: bool) -> Pkt {
     let mut answers: Vec<u8> = vec![];
     let n = if proper { src.usize(1, 3) } else { src.usize(0, 6) };
     let mut cname_pending = false;
+    // one proper response in four points its CNAME at a name whose wire form is 252..=259 octets
+    // long, around the 255-octet limit of a domain name and of the socket's name buffer
+    // (decided from bits of the transaction id: no further draw)
+    let cname_target: Vec<u8> = if proper && (id >> 4) & 3 == 0 {
+        let total = 252 + ((id >> 6) & 7) as usize;
+        let mut v = vec![];
+        let mut remaining = total - 1;
+        while remaining > 1 {
+            let l = (remaining - 1).min(63);
+            v.push(l as u8);
+            v.extend(std::iter::repeat(b'a' + (v.len() % 26) as u8).take(l));
+            remaining -= 1 + l;
+        }
+        v.push(0);
+        v
+    } else {
+        b"\x05cname\x07example\x03com\x00".to_vec()
+    };
     for i in 0..n {
         let ty: u16 = if proper {
             if i == 0 && n > 1 && src.chance(1, 3) {
@@ -571,7 +589,7 @@ pub fn gen_dns_reply(src: &mut Src, env: &mut Env, proper: bool) -> Pkt {
         };
         let name = if proper {
             if cname_pending {
-                b"\x05cname\x07example\x03com\x00".to_vec()
+                cname_target.clone()
             } else {
                 vec![0xc0, 12]
             }
@@ -588,7 +606,7 @@ pub fn gen_dns_reply(src: &mut Src, env: &mut Env, proper: bool) -> Pkt {
             5 => {
                 cname_pending = true;
                 if proper {
-                    b"\x05cname\x07example\x03com\x00".to_vec()
+                    cname_target.clone()
                 } else {
                     dns_name(src, 12)
                 }
